@@ -52,7 +52,9 @@ CFG = {
     "C09": dict(pkg="core", test="^TestC09$", shards=(8, 16), checks=(3000, 100000)),
     "C10": dict(pkg="core", race=True, shards=(8, 16), tests=[
         dict(test="^TestC10Deterministic$", checks=(400, 20000)),
-        dict(test="^TestC10Concurrent$", checks=(60, 3000))]),
+        dict(test="^TestC10Concurrent$", checks=(60, 3000)),
+        dict(test="^TestC10Boundary$", checks=(60, 3000)),
+        dict(test="^TestC10Constructors$", checks=(1, 1))]),
     "C11": dict(pkg="core", test="^TestC11$", shards=(8, 16), checks=(2500, 60000)),
     "C12": dict(pkg="total", test="^TestC12$", shards=(8, 16), checks=(60000, 1500000),
                 fuzz=dict(pkg="total", target="^FuzzTotal$", seconds=(0, 300))),
